@@ -21,6 +21,21 @@ CLAIMS = {
  'C06': dict(cat='other', ref='DESIGN.md §2 C06',
    text='Loop-exit-edge dominance for taskpool_wait/context_wait returns, frozen who-may-write table for active_taskpools (whole-program scan in the thorough tier), callback-before-decrement / increment-before-startup ordering, post-value test in context_wait, single caller of on_complete.',
    tech='edge-cut reachability on the CFG + whole-program field-effect scan + ordering rules'),
+ 'C08': dict(cat='other', ref='DESIGN.md §2 C08',
+   text='For all 11 scheduler modules: complete module tables; linear-resource typestate showing the ring parameter of every sched_*_schedule reaches exactly one container sink on every path (wrapper summaries derived from the unit); every sched_*_select returns only popped values, drops no earlier non-NULL pop and sets *distance; hbbuffer overflow always reaches the parent; __parsec_schedule_vp schedules each ring slot exactly once. All-paths statements about the code, not about concurrent container internals.',
+   tech='linear-resource (ownership) typestate over enumerated CFG paths + edge-cut reachability + initialiser tables'),
+ 'C03': dict(cat='other', ref='DESIGN.md §2 C03',
+   text='GUARDED_BY lockset analysis for the shared last_user/last_writer records of a tile in all DTD units; snapshot-and-update in one critical section in parsec_insert_dtd_task (including the re-lock path); writer record updated exactly for write accesses; lock pairing on all exits.',
+   tech='lockset typestate + same-critical-section reachability rule over clang CFG'),
+ 'C04': dict(cat='other', ref='DESIGN.md §2 C04',
+   text='data_lookup_of_dtd_task returns AGAIN for every OUTPUT-flagged flow whose copy still has readers and examines all flows; the reader counter is touched only through the atomic helpers (who-may-access scan with a positive exception table) whose return value is the post-value; AGAIN from prepare_input re-schedules exactly once.',
+   tech='dominating-guard rules + field-effect scan + path obligations'),
+ 'C16': dict(cat='other', ref='DESIGN.md §2 C16',
+   text='Path obligations in __parsec_task_progress classified by the switch labels taken: AGAIN re-schedules the same task once at distance+1 and never completes; hook-AGAIN marks STATUS_HOOK first; DONE completes once; ASYNC does neither.',
+   tech='path enumeration with switch-label refinement over clang CFG'),
+ 'C17': dict(cat='other', ref='DESIGN.md §2 C17',
+   text='Weak, clause level: the flush task becomes last_writer and last_user of the tile in the same critical section as the snapshot, is linked after the unlock, the flush pair orders send before receive and flush_all visits every tile. Says nothing about the value that reaches the owner.',
+   tech='lockset typestate + ordering rules over clang CFG'),
 }
 
 NOT_APPLICABLE = {
